@@ -81,6 +81,28 @@ CLAIMED = {
             "Snapshots are created only by the manager; every push is followed under the same guard by the len>retention loop releasing the "
             "popped entry; rollback releases the split-off suffix by its own names; build() prunes by now-ttl when persistent. Counts over "
             "real histories are not decided.", "DESIGN.md §4 C20"),
+    "C06": ("NoPanic: enumeration of every unwrap/expect/panic!/index/slice-op call and every overflow/bounds assert in MIR with "
+            "dominance-based discharge classes; validate-then-apply ordering; lint-level query; write-set before MLS processing",
+            "Every potential panic site in non-test library code is in a discharged class (lock poison, length-guarded index, non-input or "
+            "range-checked arithmetic, documented configuration panic, named exception); no fallible input decoder follows a state-advancing "
+            "MLS call; unsafe is forbidden. 'State exactly unchanged for all inputs' and dependency panics are not decided.", "DESIGN.md §4 C06"),
+    "C13": ("who-may-call (Connection::open), success-dominance chain over PRAGMA statements, must-pass-through (chmod, pre-creation), "
+            "lock/recheck dominance in the keyring path, arm-region reachability (existing file never generates a key), compile-fail witnesses",
+            "The key is applied first and validated on every Ok path of the single opener; permissions constants and ordering; keyring "
+            "generation only under the lock after a re-check; type-level barriers hold. Bytes on disk (SQLCipher) are not decided.", "DESIGN.md §4 C13"),
+    "C14": ("type rule + interprocedural taint (parameter/return summaries, closure captures) from identifier/secret sources to tracing "
+            "arguments and error payloads; redaction rule on manual Debug impls; compile-fail witnesses; positive controls compiled by the driver",
+            "No tracing event formats a type or value carrying a group id / Nostr group id / secret / snapshot name and no library error "
+            "payload is derived from one, on every call site. Strings produced by dependencies' errors are assumed clean.", "DESIGN.md §4 C14"),
+    "C17": ("parameter-coverage of the AAD / HKDF-context builders, enc/dec sibling argument wiring, decision table of the post-decryption "
+            "hash check, route restriction to the checking function, group-image hash-before-decrypt dominance",
+            "Every metadata parameter is bound into AAD and key derivation identically on both sides; decrypted bytes are only returned "
+            "after the hash comparison; label domain separation. AEAD/HKDF correctness and byte round-trips are not decided.", "DESIGN.md §4 C17"),
+    "C19": ("guard live-range analysis in MIR (acquisition nesting incl. callees and closures run under a lock), critical-section counting per "
+            "trait method with a frozen exception table, single-guard snapshot rule, Send+Sync compile witnesses",
+            "No backend lock is acquired while another guard of that backend is alive (no self-deadlock / lock-order cycle); each trait method "
+            "is one critical section unless listed; the memory snapshot is taken under one guard. Linearizability of real interleavings is not decided.",
+            "DESIGN.md §4 C19"),
 }
 PENDING_REASON = "check under construction in this round (see DESIGN.md); not yet claimed"
 NA = {}
